@@ -69,7 +69,10 @@ class ValidationScenario(StateScenario):
             p = (path + "." if path else "") + f["key"]
             if k in ("virtual", "method", "include"):
                 continue
-            v = getattr(cfgobj, f["key"])
+            try:
+                v = getattr(cfgobj, f["key"])
+            except AttributeError:
+                return False      # a declared field that cannot even be read (a changed tree may do that): nothing to audit
             if schema.is_cfg_node(f):
                 if isinstance(v, Config):
                     ok = self.audit(st, v, schema.sub_schema_node(st.sd, f), p, out, validators) and ok
